@@ -56,7 +56,7 @@ def check(ctx):
                  for c, l in zip(keys, out)]
         header = ("From Coq Require Import String.\nFrom SLX Require Import Base gen.ValueSig SymVal VM VmCases SimCases.\n"
                   "Open Scope string_scope. Open Scope N_scope.\n")
-        per = max(1, len(terms) // 32 + 1)
+        per = min(150, max(1, len(terms) // 32 + 1))
         bad = vlib.run_cases(ctx, "visited-vs-cfg", header, terms, per_shard=per, fn="check_c08")
         explored = vlib.run_cases(ctx, "cfg-explored", header, terms, per_shard=per, fn="c08_explored")
         disagreements = []
